@@ -101,12 +101,12 @@ theorem c05_full (ext : Ext) (r : NetRule) (q : Request) (w : Bytes)
 
 /-- The same for `/regex/` rules over `modelPat` (group A's `c05_regex_rule` with its pattern
     hypothesis discharged for the composed oracle): the candidates `parts` of the textual heuristics
-    are arbitrary, the tree is the model's parse of the text between the slashes. -/
+    are arbitrary, the tree is the model's parse of the text between the slashes.  No hypothesis about
+    a `(?i)` at the start of a `$match-case` rule's own text is needed (review TOP 14): then `parseCore`
+    yields no tree, nothing is required and no candidate is accepted (`parseCore_of_hasPrefix_ci`). -/
 theorem c05_full_regex (ext : Ext) (r : NetRule) (q : Request) (parts : List Bytes)
     (hre : UF.isRegexPattern r.pattern = true)
     (hshort : r.shortcut = loadShortcut (findRegexpShortcut parts (parseCore ((r.pattern.drop 1).dropLast))))
-    (hci : r.isEnabled Facts.OptionMatchCase = true →
-      hasPrefix ((r.pattern.drop 1).dropLast) ciPrefix = false)
     (hlower : q.urlLower = toLower q.url)
     (hhost : q.isHostnameRequest = true → hasSub q.url q.hostname = true) :
     r.matches (withModelPat ext) q = ({ r with shortcut := [] } : NetRule).matches (withModelPat ext) q := by
@@ -121,7 +121,7 @@ theorem c05_full_regex (ext : Ext) (r : NetRule) (q : Request) (parts : List Byt
     subst ht
     obtain ⟨r0, hparse, hs, _⟩ := modelPat_regex_some hre hm
     unfold regexRuleText at hparse
-    generalize (r.pattern.drop 1).dropLast = inner at hparse hci ⊢
+    generalize (r.pattern.drop 1).dropLast = inner at hparse ⊢
     cases hmc : r.isEnabled Facts.OptionMatchCase with
     | false =>
       rw [hmc] at hparse
@@ -136,12 +136,21 @@ theorem c05_full_regex (ext : Ext) (r : NetRule) (q : Request) (parts : List Byt
         intro t' ht'; cases ht'; exact litsCovered_foldCase t
     | true =>
       rw [hmc] at hparse
-      simp only [if_true, parseRE, hci hmc, Bool.false_eq_true, if_false] at hparse
-      refine ⟨r0, ?_, hs.symm⟩
-      intro t' ht'
-      rw [hparse] at ht'
-      cases ht'
-      exact litsCovered_refl r0
+      simp only [if_true] at hparse
+      cases hci : hasPrefix inner ciPrefix with
+      | true =>
+        -- the text itself starts with `(?i)`: `parseCore` has no flag groups, the tree is `none`
+        refine ⟨r0, ?_, hs.symm⟩
+        intro t' ht'
+        rw [parseCore_of_hasPrefix_ci hci] at ht'
+        cases ht'
+      | false =>
+        simp only [parseRE, hci, Bool.false_eq_true, if_false] at hparse
+        refine ⟨r0, ?_, hs.symm⟩
+        intro t' ht'
+        rw [hparse] at ht'
+        cases ht'
+        exact litsCovered_refl r0
 
 /-- C05 from the rule TEXT for mask rules — no oracle and no hypothesis about the rule record: whatever
     `NewNetworkRule` accepts with a pattern that is not a `/regex/` matches the same requests with and
@@ -165,15 +174,13 @@ theorem c05_text_full_regex (px : E.ParseExt) (t : Bytes) (id : Int) (r : NetRul
     (hre : UF.isRegexPattern r.pattern = true)
     (horacle : ∃ parts, px.regexpShortcut r.pattern =
       findRegexpShortcut parts (parseCore ((r.pattern.drop 1).dropLast)))
-    (hci : r.isEnabled Facts.OptionMatchCase = true →
-      hasPrefix ((r.pattern.drop 1).dropLast) ciPrefix = false)
     (hlower : q.urlLower = toLower q.url)
     (hhost : q.isHostnameRequest = true → hasSub q.url q.hostname = true) :
     r.matches (withModelPat px.ext) q = ({ r with shortcut := [] } : NetRule).matches (withModelPat px.ext) q := by
   obtain ⟨_, _, _, _, _, _, hsc⟩ := parseNetRule_pattern h
   obtain ⟨parts, hparts⟩ := horacle
   rcases hsc with ⟨_, hs⟩ | ⟨hre', _⟩
-  · exact c05_full_regex px.ext r q parts hre (by rw [hs, hparts]) hci hlower hhost
+  · exact c05_full_regex px.ext r q parts hre (by rw [hs, hparts]) hlower hhost
   · rw [hre] at hre'; cases hre'
 
 /-- `/regex/` rules, from the TEXT: the shortcut computed by the text-level model of
